@@ -43,6 +43,9 @@ def shards(tier, seed):
     out.append({"part": "fftbig", "seed": seed, "sizes": [17, 31, 32, 33, 64, 255, 256, 1023, 1024, 1025] if tier == "quick" else None})
     for lo in range(2, 41, 6):
         out.append({"part": "band", "samples": list(range(lo, min(lo + 6, 41))), "seed": seed})
+    # long series (bin spacing far below any fixed comparison tolerance): band edges between bins, all pairs
+    for n in (2 ** 20, 2 ** 20 + 1):
+        out.append({"part": "band", "samples": [n], "seed": seed, "rates": [1000.0], "edges": [0.0, 99.99976, 100.0002, 300.0004, 499.9997, 500.0]})
     out.sort(key=lambda s: -s.get("N", 0))
     return out
 
@@ -223,11 +226,16 @@ def _band(shard):
 
     out = {"evals": 0, "nontrivial": 0, "failures": [], "samples": [], "extra": {"empty_bands": 0}}
     seen = set()
-    for n, sr in itertools.product(shard["samples"], (1.0, 8.0)):
+    for n, sr in itertools.product(shard["samples"], shard.get("rates") or (1.0, 8.0, 1e-6, 1e6)):
         grid = np.abs(np.fft.fftfreq(n, d=1.0 / sr))
         pts = sorted(set(grid.tolist()))
         mids = [0.5 * (a + b) for a, b in zip(pts[:-1], pts[1:])]
-        edges = sorted(set(pts + mids + [sr / 2.0]))
+        if sr in (1.0, 8.0):
+            edges = sorted(set(pts + mids + [sr / 2.0]))
+        else:  # other units (micro-hertz, mega-hertz): band edges between grid points only - the last bit of a grid frequency is not pinned
+            edges = sorted(set(mids + [0.0]))
+        if shard.get("edges"):
+            edges = [e for e in shard["edges"]]
         for lo, hi in itertools.product(edges, edges):
             if lo > hi:
                 continue
@@ -259,5 +267,5 @@ def _band(shard):
                 if key not in seen:
                     seen.add(key)
                     out["failures"].append(fw.fail(key, f"band_limited_noise({lo!r},{hi!r},samples={n},samplerate={sr}): {prob}", case))
-    out["samples"].append({"samples": shard["samples"], "samplerates": [1.0, 8.0]})
+    out["samples"].append({"samples": shard["samples"], "samplerates": list(shard.get("rates") or (1.0, 8.0, 1e-6, 1e6))})
     return out
